@@ -487,6 +487,12 @@ func parent(id, level, tier string, seed int64, opt Options) int {
 	cmd.Stdout = os.Stdout
 	cmd.Stderr = ef
 	cmd.Env = os.Environ()
+	// everything the child (and its own children) creates through os.MkdirTemp lands in one scratch
+	// directory that is removed here, also when the child crashed or was killed by a watchdog
+	if scratch, err := os.MkdirTemp("", "verif-"+id+"-scratch-"); err == nil {
+		defer os.RemoveAll(scratch)
+		cmd.Env = append(cmd.Env, "TMPDIR="+scratch)
+	}
 	if os.Getenv("GORACE") == "" {
 		cmd.Env = append(cmd.Env, "GORACE=halt_on_error=0 exitcode=0 log_path="+filepath.Join(outDir, "race-"+tier))
 	}
